@@ -6,6 +6,7 @@ import (
 	"go/ast"
 	"go/token"
 	"go/types"
+	"sort"
 )
 
 func init() {
@@ -516,10 +517,140 @@ func ruleR06_3(c *Check) {
 	}
 }
 
+func ruleR06_4(c *Check) {
+	w := c.W
+	r := c.Rule("R06.4", "E6", 3, "iterator Items are recycled: every Item field that an Item method writes (the prefetch result: err, status, val) is either reset unconditionally by Iterator.fill, or the prefetch that writes it is started by fill under conditions that depend on the iterator's options only, so that it runs for every item of the iterator or for none",
+		"a prefetch skipped for some items leaves the previous occupant's status/err/val in the recycled Item: Value and ValueCopy then return the stale or empty prefetch result instead of the stored value")
+	fill := w.F("badger.Iterator.fill")
+	itemT := w.Obj("badger.Item")
+	optT := w.Obj("badger.IteratorOptions")
+	// fields written by Item methods
+	written := map[*types.Var]string{}
+	for _, f := range w.Fns {
+		if f.Decl == nil || f.Decl.Recv == nil || shortPkg(f.Pkg) != "badger" || isCmdPkg(f) {
+			continue
+		}
+		if rt := w.TypeOf(f.Decl.Recv.List[0].Type); rt == nil || namedOf(rt) != itemT {
+			continue
+		}
+		f := f
+		f.walk(func(n ast.Node) bool {
+			for _, l := range assignedExprs(n) {
+				if _, isSel := unparen(l).(*ast.SelectorExpr); !isSel {
+					continue
+				}
+				if v := w.fieldOf(l); v != nil && fieldOfType(v, itemT) {
+					// lazy initialisation (`if item.f == nil { item.f = new(…) }`) carries nothing over from the previous occupant
+					lazy := false
+					for _, g := range w.Guards(f, n) {
+						if be, ok := unparen(g.Cond).(*ast.BinaryExpr); ok && be.Op == token.EQL && g.Val && isNil(be.Y) && w.fieldOf(be.X) == v {
+							lazy = true
+						}
+					}
+					if !lazy {
+						written[v] = f.Name
+					}
+				}
+			}
+			return true
+		})
+	}
+	r.Exists(len(written) >= 2, fill, "fields written by Item methods found", nil, "expected prefetchValue to write err/status")
+	// the calls in fill (including its go closures) that reach those writers
+	optOnly := func(e ast.Expr) bool {
+		ok := true
+		var visit func(e ast.Expr)
+		visit = func(e ast.Expr) {
+			e = w.from(e)
+			ast.Inspect(e, func(n ast.Node) bool {
+				switch x := n.(type) {
+				case *ast.SelectorExpr:
+					if v := w.fieldOf(x); v != nil && fieldOfType(v, optT) {
+						return false
+					}
+				case *ast.Ident:
+					if v, isVar := w.Use(x).(*types.Var); isVar && !v.IsField() {
+						if o := w.from(x); o != ast.Expr(x) {
+							visit(o)
+						} else {
+							ok = false
+						}
+					}
+				case *ast.CallExpr:
+					ok = false
+				}
+				return true
+			})
+		}
+		visit(e)
+		return ok
+	}
+	var names []*types.Var
+	for v := range written {
+		names = append(names, v)
+	}
+	sort.Slice(names, func(i, j int) bool { return names[i].Name() < names[j].Name() })
+	for _, fld := range names {
+		reset := false
+		for _, s := range fill.Sites(selStore(fld)) {
+			if len(w.Guards(fill, s)) == 0 {
+				reset = true
+			}
+		}
+		if reset {
+			r.Check(true, fill, "Item."+fld.Name()+" reset for every item", nil, "")
+			continue
+		}
+		writer := w.F(written[fld])
+		okAll, found := true, false
+		var bad ast.Node
+		fill.walkDeep(func(own *Fn, n ast.Node) bool {
+			call, ok := n.(*ast.CallExpr)
+			if !ok || w.Callee(call) != types.Object(writer.Obj) {
+				return true
+			}
+			found = true
+			// guards of the call inside its closure, and of the statement hosting the closure in fill
+			var gs []Guard
+			gs = append(gs, w.Guards(own, call)...)
+			for o := own; o != fill && o != nil; o = o.Parent {
+				if o.Host != nil {
+					gs = append(gs, w.Guards(o.Parent, o.Host)...)
+				}
+			}
+			for _, g := range gs {
+				if !optOnly(g.Cond) {
+					okAll, bad = false, g.Cond
+				}
+			}
+			return true
+		})
+		r.Check(found && okAll, fill, "Item."+fld.Name()+" (written by "+written[fld]+") refreshed for every item or for none", bad, "Item."+fld.Name()+" is not reset by fill and the call that writes it depends on more than the iterator's options: a recycled Item can keep the previous item's "+fld.Name())
+	}
+}
+
+func fieldOfType(v *types.Var, named types.Object) bool {
+	tn, ok := named.(*types.TypeName)
+	if !ok {
+		return false
+	}
+	st, ok := tn.Type().Underlying().(*types.Struct)
+	if !ok {
+		return false
+	}
+	for i := 0; i < st.NumFields(); i++ {
+		if st.Field(i) == v {
+			return true
+		}
+	}
+	return false
+}
+
 func propC06(c *Check) {
 	ruleR06_1(c)
 	ruleR06_2(c)
 	ruleR06_3(c)
+	ruleR06_4(c)
 }
 
 // counterSel selects the sites that move an atomic counter field in one direction: a direct
